@@ -396,10 +396,90 @@ def _total(chk):
     return wrapped
 
 
+def check_mp_hitcounts(inp):
+    """task level: the true-positive totals that multipitch.metrics() reports (recovered from precision * #est and
+    recall * #ref, raw and chroma) are the per-frame maximum matching sizes under the raw / octave-wrapped window,
+    computed here in exact arithmetic from the lattice pitches -- i.e. the counts obtained INSIDE the pipeline
+    (conversion to MIDI, chroma wrapping, both matchings on the same frame objects) and not only by the matching
+    helper called on fresh data"""
+    rt, rf, et, ef, w = _MP._parse(inp)
+    if rt != et:
+        return None
+    ww = Fr(1, 2) if w is None else w
+    s = _MP._scores(rt, rf, et, ef, w)
+    n_ref = sum(len(f) for f in rf)
+    n_est = sum(len(f) for f in ef)
+
+    def total(chroma):
+        tot = 0
+        for r, e in zip(rf, ef):
+            adj = {}
+            for i, a in enumerate(r):
+                for j, b in enumerate(e):
+                    d = abs(a - b)
+                    if chroma:
+                        d = d % 12
+                        d = min(d, 12 - d)
+                    if d <= ww:
+                        adj.setdefault(i, []).append(j)
+            tot += py_max_matching(adj)
+        return tot
+    for name, off, chroma in (("raw", 0, False), ("chroma", 7, True)):
+        want = total(chroma)
+        if n_est and abs(s[off] * n_est - want) > 1e-6:
+            return ("%s precision %r over %d estimated pitches means %.6f hits; the maximum one-to-one matching of "
+                    "the frames has %d in total" % (name, s[off], n_est, s[off] * n_est, want))
+        if n_ref and abs(s[off + 1] * n_ref - want) > 1e-6:
+            return ("%s recall %r over %d reference pitches means %.6f hits; the maximum one-to-one matching of "
+                    "the frames has %d in total" % (name, s[off + 1], n_ref, s[off + 1] * n_ref, want))
+    return None
+
+
+def check_event_hitcounts(inp):
+    """task level: the hit counts behind onset.f_measure and beat.f_measure (precision * #est, recall * #ref) are the
+    maximum matching size under |r - e| <= window"""
+    ref = sorted(gen.fr(x) for x in inp["ref"])
+    est = sorted(gen.fr(x) for x in inp["est"])
+    w = gen.fr(inp["window"])
+    if not ref or not est:
+        return None
+    adj = {}
+    for i, r in enumerate(ref):
+        for j, e in enumerate(est):
+            if abs(r - e) <= w:
+                adj.setdefault(i, []).append(j)
+    want = py_max_matching(adj)
+    for name, got in (("onset.f_measure", mir_eval.onset.f_measure(gen.arr(ref), gen.arr(est), window=float(w))),
+                      ("beat.f_measure", (mir_eval.beat.f_measure(gen.arr(ref), gen.arr(est),
+                                                                 f_measure_threshold=float(w)),))):
+        if name == "beat.f_measure":
+            f = float(got[0])
+            fw = 2.0 * want / (len(ref) + len(est))
+            if abs(f - fw) > 1e-9:
+                return "%s = %r; with the maximum matching (%d hits) it is %r" % (name, f, want, fw)
+            continue
+        _, p, r = [float(x) for x in got]
+        if abs(p * len(est) - want) > 1e-6 or abs(r * len(ref) - want) > 1e-6:
+            return ("%s: precision %r / recall %r mean %.6f / %.6f hits; the maximum one-to-one matching has %d"
+                    % (name, p, r, p * len(est), r * len(ref), want))
+    return None
+
+
+def gen_mp_hitcounts(rng, tier, shard, nshards, boost):
+    for _ in range((150 if tier == "quick" else 2500) * boost):
+        kind, rt, rf, et, ef, w = _MP.instance(rng, "equal")
+        if rt == et:
+            yield _MP._json(kind, rt, rf, et, ef, w)
+
+
 CHECKERS = {"util._bipartite_match": check_bipartite, "util.match_events": check_match_events,
-            "util.match_events(distance)": check_match_events_distance}
+            "util.match_events(distance)": check_match_events_distance,
+            "multipitch.metrics(hit counts)": check_mp_hitcounts,
+            "onset/beat.f_measure(hit counts)": check_event_hitcounts}
 ORACLES = {"util._bipartite_match": gen_bipartite, "util.match_events": gen_match_events,
-           "util.match_events(distance)": gen_match_events_distance}
+           "util.match_events(distance)": gen_match_events_distance,
+           "multipitch.metrics(hit counts)": gen_mp_hitcounts,
+           "onset/beat.f_measure(hit counts)": gen_match_events}
 
 
 def classify(suite, d):
